@@ -40,6 +40,7 @@ func (World) Assumptions(prop string) []string {
 		"the start round of the current epoch is taken from the history the driver produced, not from the trigger: the round of the Update that started it, then the round of its committed epoch-start block (SetProcessed), after a rollback of that block the round of the previous epoch's start block, after a restart the state that was saved under the boot key (the driver mirrors which state the registry saved under which key); on the repaired tree EpochStartRound()/Epoch() agreed with this history after every step (probe reported_state_differs_from_history = 0)",
 		"'without forcing': no ForceEpochStart call (direct or through the hardfork trigger) since the last epoch start or restart; then an Update starts the epoch iff round > start round + RoundsPerEpoch (both directions), provided the previous epoch-start block is committed and nonce >= 4 (the code's genesis edge case nonce < 4 never starts an epoch; counted as probe, not asserted)",
 		"with a force pending only the +1 and the minimum-distance clauses are asserted",
+		"'+1' is judged twice: against Epoch() read just before the operation, and against the epoch of the chain history the driver produced (after a rollback to / behind an epoch-start block, also while the trigger had already fired for the following epoch whose block was never committed, the history is back in the earlier epoch and the next epoch start must lead to that epoch + 1)",
 		"rounds given to Update never decrease (the node's round clock); the epoch-start block carries the round of the latest Update; SetFinalityAttestingRound is only called for a committed epoch-start block; a restart loads the state key recorded with the current chain head (rolled back together with the head); Epoch() changing on revert or restart is not an epoch start",
 		"constructor preconditions are enforced by the generator: 1 <= MinRoundsBetweenEpochs <= RoundsPerEpoch",
 	}
@@ -48,7 +49,7 @@ func (World) Assumptions(prop string) []string {
 func (World) Rule(prop string) string {
 	return "knobs: rounds per epoch 5-30, min rounds between epochs 1-10 (<= rounds per epoch), genesis epoch 0-3, genesis round 0-40, first nonce 0 or >= 4; " +
 		"30-160 steps of Update(round skip 0..k, nonce step)|Force(requested round = clock+delta with delta ahead / equal / behind / before the epoch start / far ahead / MaxUint64; " +
-		"direct, via hardfork Trigger, via hardfork TriggerReceived message)|SetProcessed(epoch-start block or ordinary block)|SetFinality|Revert(parent of the start block | the start block | unrelated header)|Restart(LoadState) " +
+		"direct, via hardfork Trigger, via hardfork TriggerReceived message)|SetProcessed(epoch-start block or ordinary block)|SetFinality|Revert(to the parent of the last committed start block | to that start block, both also while the next epoch start is pending | unrelated header)|Restart(LoadState) " +
 		"with per-run op weights; arms faultfree (no revert/restart) and history (reverts and restarts, close_reopen); " +
 		"non-trivial = at least two epoch starts observed; distinct = hash of full plan; state fingerprint = (epoch, start round - clock, pending start, pending force) after each step"
 }
